@@ -15,6 +15,7 @@
 package redis
 
 import (
+	"math"
 	"strconv"
 )
 
@@ -29,11 +30,19 @@ func (server *Server) registerSugarExecutors() {
 		}
 		currVal := 0
 		if !getRet.IsNil() {
-			retVal, err := getRet.Integer()
+			retStr, err := getRet.String()
 			if err != nil {
 				return nil, err
 			}
+			// Accepts only the canonical decimal form as Redis does ("010" and "+1" are not integers).
+			retVal, err := strconv.Atoi(retStr)
+			if err != nil || strconv.Itoa(retVal) != retStr {
+				return nil, newInvalidArgumentError(cmd, key, ErrNotInteger)
+			}
 			currVal = retVal
+		}
+		if (0 < val && (math.MaxInt-val) < currVal) || (val < 0 && currVal < (math.MinInt-val)) {
+			return nil, newInvalidArgumentError(cmd, key, ErrOverflow)
 		}
 		newVal := currVal + val
 		opt := newDefaultSetOption()
@@ -83,6 +92,9 @@ func (server *Server) registerSugarExecutors() {
 		inc, err := nextIntegerArgument(cmd, "decrement", args)
 		if err != nil {
 			return nil, err
+		}
+		if inc == math.MinInt {
+			return nil, newInvalidArgumentError(cmd, "decrement", ErrOverflow)
 		}
 		return incdecExecutor(conn, cmd, key, -inc)
 	})
